@@ -63,51 +63,77 @@ def _eligible(rs, j):
     return None
 
 
+def schedule_post(old, s, result, cap):
+    """common postcondition of on_task_schedule; ``cap`` is the effective maximum resource
+    (max_t for ASHA, the current cap for PASHA)"""
+    rs0 = old.self
+    rs1 = s.self
+    n = len(rs0._rungs)
+    out = {"running-unchanged": unchanged(rs1._running, rs0._running)}
+    if "trial_id" not in result:
+        out["empty"] = len(result) == 0
+        out["frame"] = unchanged(rs1._rungs, rs0._rungs)
+        # no rung below the cap holds a candidate that is strictly better than its quantile
+        out["none-eligible"] = forall(range(0, n), lambda j: none_eligible(rs0._rungs[j]) if rs0._rungs[j].level < cap else True)
+        return out
+    # promoted from rung j
+    lvl = result["resume_from"]
+    j = None
+    for i in range(n):
+        if rs0._rungs[i].level == lvl:
+            j = i
+    out["from-a-rung"] = j is not None
+    if j is None:
+        return out
+    r0 = rs0._rungs[j]
+    out["below-cap"] = lvl < cap
+    out["target-next-level"] = result["milestone"] == (rs0._rungs[j - 1].level if j > 0 else rs0._max_t)
+    out["target-within-cap"] = result["milestone"] <= cap
+    out["rung-has-2"] = len(r0.data) >= 2
+    # the promoted trial is the first un-promoted entry of its rung, not strictly worse than the quantile
+    out["eligible"] = exists(
+        range(0, len(r0.data)),
+        lambda f: first_unpromoted(r0, f)
+        and r0.data[f].trial_id == result["trial_id"]
+        and (not strictly_worse(r0, r0.data[f].metric_val, np_quantile_linear(r0)))
+        and moved_promoted(rs1._rungs[j], r0, f),
+    )
+    # no higher rung below the cap held a strictly eligible trial
+    out["highest"] = forall(range(0, n), lambda i: none_eligible(rs0._rungs[i]) if (i < j and rs0._rungs[i].level < cap) else True)
+    out["others-unchanged"] = forall(range(0, n), lambda i: unchanged(rs1._rungs[i], rs0._rungs[i]) if i != j else True)
+    return out
+
+
 @contract(HB_PROM + ":PromotionRungSystem.on_task_schedule", props=("C04",))
 class Prom_on_task_schedule:
     params = dict(self=Obj("PromotionRungSystem"), new_trial_id=Str)
     proof_shapes = [{"self._rungs": k} for k in range(0, 3)]
-    shapes = [{"self._rungs": k, "*": n} for k in range(0, 3) for n in range(0, 4)]
-    inline = ()
+    shapes = [{"self._rungs": 1, "*": n} for n in range(0, 4)] + [{"self._rungs": 2, "*": n} for n in range(0, 3)]
+    shapes_thorough = [{"self._rungs": k, "*": n} for k in range(0, 4) for n in range(0, 4)]
 
     def requires(s):
         return True
 
     def ensures(old, s, result):
-        rs0 = old.self
-        rs1 = s.self
-        n = len(rs0._rungs)
-        out = {"running-unchanged": unchanged(rs1._running, rs0._running)}
-        if "trial_id" not in result:
-            out["empty"] = len(result) == 0
-            out["frame"] = unchanged(rs1._rungs, rs0._rungs)
-            # no rung holds a candidate that is strictly better than its quantile
-            out["none-eligible"] = forall(range(0, n), lambda j: none_eligible(rs0._rungs[j]) if rs0._rungs[j].level < rs0._max_t else True)
-            return out
-        # promoted from rung j
-        lvl = result["resume_from"]
-        j = None
-        for i in range(n):
-            if rs0._rungs[i].level == lvl:
-                j = i
-        out["from-a-rung"] = j is not None
-        if j is None:
-            return out
-        r0 = rs0._rungs[j]
-        out["below-max"] = lvl < rs0._max_t
-        out["target-next-level"] = result["milestone"] == (rs0._rungs[j - 1].level if j > 0 else rs0._max_t)
-        out["rung-has-2"] = len(r0.data) >= 2
-        # the promoted trial is the first un-promoted entry of its rung, not strictly worse than the quantile
-        out["eligible"] = exists(
-            range(0, len(r0.data)),
-            lambda f: first_unpromoted(r0, f)
-            and r0.data[f].trial_id == result["trial_id"]
-            and (not strictly_worse(r0, r0.data[f].metric_val, np_quantile_linear(r0)))
-            and moved_promoted(rs1._rungs[j], r0, f),
-        )
-        # no higher rung held a strictly eligible trial
-        out["highest"] = forall(range(0, n), lambda i: none_eligible(rs0._rungs[i]) if i < j else True)
-        out["others-unchanged"] = forall(range(0, n), lambda i: unchanged(rs1._rungs[i], rs0._rungs[i]) if i != j else True)
+        return schedule_post(old, s, result, old.self._max_t)
+
+
+@contract(HB_PROM + ":PromotionRungSystem.on_task_schedule", props=("C04",))
+class Pasha_on_task_schedule:
+    """PASHA inherits on_task_schedule; the effective maximum is the current (growing) cap"""
+
+    label = "PASHARungSystem.on_task_schedule"
+    params = dict(self=Obj("PASHARungSystem"), new_trial_id=Str)
+    proof_shapes = [{"self._rungs": k} for k in range(1, 3)]
+    shapes = [{"self._rungs": 1, "*": n} for n in range(0, 4)] + [{"self._rungs": 2, "*": n} for n in range(0, 3)] + [{"self._rungs": 3, "*": 1}]
+    shapes_thorough = [{"self._rungs": k, "*": n} for k in range(1, 4) for n in range(0, 4)]
+
+    def requires(s):
+        return True
+
+    def ensures(old, s, result):
+        out = schedule_post(old, s, result, old.self.current_max_t)
+        out["cap-unchanged"] = s.self.current_max_t == old.self.current_max_t
         return out
 
 
